@@ -1076,12 +1076,12 @@ func TestVerifC02(t *testing.T) {
 		Rule: "hand-written inputs around every rule of the line grammar, alone, fed byte by byte and embedded between two results; lines of length limit-2..limit+2; " + rule,
 	}
 	grammar := kit.Class[c02TextCase]{
-		Name: "grammar", Quick: 6000, Thorough: 500000, Gen: c02GenGrammar,
+		Name: "grammar", Quick: 20000, Thorough: 500000, Gen: c02GenGrammar,
 		Check: c02CheckText, NonTrivial: c02TextNonTrivial, MinNonTrivial: 3000, HangIsViolation: true,
 		Rule: "1-60 lines from a line grammar (config set/delete/near-miss over a small key pool, unit lines, well-formed and malformed benchmark lines with Unicode white space, junk, CR/CRLF), 30% with 1-4 byte-level mutations; 1/2 of the inputs delivered in small chunks; " + rule,
 	}
 	intern := kit.Class[c02TextCase]{
-		Name: "intern-overflow", Quick: 60, Thorough: 2500, Gen: c02GenIntern,
+		Name: "intern-overflow", Quick: 150, Thorough: 2500, Gen: c02GenIntern,
 		Check: c02CheckText, NonTrivial: func(c c02TextCase) bool {
 			out := refread.New().Read("x", string(c.Text), refread.Options{})
 			return out.Stats.Distinct > 1024 && out.Stats.Results > 0 && out.Stats.Deletes > 0
@@ -1089,12 +1089,12 @@ func TestVerifC02(t *testing.T) {
 		Rule: "1100-1500 steps setting, deleting and re-setting distinct keys in one growing configuration, with distinct units and unit metadata; non-trivial = more than 1024 distinct strings, at least one result and one effective deletion",
 	}
 	long := kit.Class[c02TextCase]{
-		Name: "long-lines", Quick: 120, Thorough: 4000, Gen: c02GenLong,
+		Name: "long-lines", Quick: 300, Thorough: 4000, Gen: c02GenLong,
 		Check: c02CheckText, NonTrivial: c02TextNonTrivial, MinNonTrivial: 60, HangIsViolation: true,
 		Rule: "config, benchmark, unit and junk lines of 4-60 KB, of exactly the line limit, and beyond it, followed by further results; " + rule,
 	}
 	files := kit.Class[c02FilesCase]{
-		Name: "files", Quick: 500, Thorough: 30000, Gen: c02GenFiles,
+		Name: "files", Quick: 1500, Thorough: 30000, Gen: c02GenFiles,
 		Check: c02CheckFiles, NonTrivial: c02FilesNonTrivial, MinNonTrivial: 250, HangIsViolation: true,
 		Rule: "1-4 temp files (grammar texts, shared small unit pool) read as 1-6 path entries with duplicates, label=path entries, '=' in names, rare missing files and over-long lines through benchfmt.Files (70%) or through one Reader with Reset, tool labels and early abandon (30%); non-trivial = at least two entries and one result",
 	}
